@@ -106,3 +106,61 @@ Lemma deliver_in {U} cfg h (msgs : list (N * U)) u :
   In u (deliver cfg h msgs) -> exists s, In (s, u) msgs /\ trust_crdt cfg h s = true.
 Proof. unfold deliver, validator. rewrite in_map_iff. intros [[s u'] [E H]]. simpl in E. subst u'.
   apply filter_In in H. destruct H as [H1 H2]. exists s. auto. Qed.
+
+(* ---- the trusted_peers value as written in the configuration file ---- *)
+Local Open Scope list_scope.
+Definition listed_json (tp : option (list tentry)) (p : N) : Prop :=
+  exists l, tp = Some l /\ (In TStar l \/ In (TPeer p) l).
+
+Lemma load_trusted_spec l : forall acc,
+  (In TStar l -> load_trusted l acc = (true, [])) /\
+  (~ In TStar l -> load_trusted l acc = (false, acc ++ flat_map (fun e => match e with TStar => [] | TPeer q => [q] end) l)).
+Proof.
+  induction l as [|e r IH]; intros acc; cbn [load_trusted flat_map In].
+  - split; [intros []|intros _; now rewrite app_nil_r].
+  - destruct e as [|q].
+    + split; [reflexivity|]. intros Hn. exfalso. apply Hn. now left.
+    + destruct (IH (acc ++ [q])) as [I1 I2]. split.
+      * intros [Hd|Hi]; [discriminate|]. now apply I1.
+      * intros Hn. rewrite I2 by (intros Hs; apply Hn; now right). cbn [app]. now rewrite <- app_assoc.
+Qed.
+
+Lemma in_star_dec (l : list tentry) : {In TStar l} + {~ In TStar l}.
+Proof. apply in_dec. decide equality. apply N.eq_dec. Qed.
+
+Lemma in_peers_of l p : In p (flat_map (fun e => match e with TStar => [] | TPeer q => [q] end) l) <-> In (TPeer p) l.
+Proof.
+  induction l as [|e r IH]; cbn [flat_map In]; [tauto|]. rewrite in_app_iff, IH. destruct e as [|q]; cbn [In].
+  - split; [intros [[]|H]; now right|intros [H|H]; [discriminate|now right]].
+  - split; [intros [[H|[]]|H]; [left; now subst|now right]|intros [H|H]; [left; left; now inversion H|now right]].
+Qed.
+
+Lemma trust_json_l me tp p :
+  trust_crdt (cfg_of_json me tp) [] p = true <-> p = me \/ listed_json tp p.
+Proof.
+  rewrite trust_configured. unfold cfg_of_json, listed_json. destruct tp as [l|]; cbn [trust_all self configured].
+  - destruct (in_star_dec l) as [Hs|Hs].
+    + destruct (load_trusted_spec l []) as [I1 _]. rewrite (I1 Hs). cbn [trust_all self configured].
+      split; [intros _|intros _; now left]. right. exists l. split; [reflexivity|now left].
+    + destruct (load_trusted_spec l []) as [_ I2]. rewrite (I2 Hs). cbn [trust_all self configured app].
+      rewrite in_peers_of. split.
+      * intros [H|[H|H]]; [discriminate|now left|]. right. exists l. split; [reflexivity|now right].
+      * intros [H|[l' [E [H|H]]]]; [right; now left| |]; inversion E; subst l'; [contradiction|right; now right].
+  - split; [intros [H|[H|[]]]; [discriminate|now left]|]. intros [H|[l [E _]]]; [right; now left|discriminate].
+Qed.
+
+Lemma peers_of_map_tpeer l : flat_map (fun e => match e with TStar => [] | TPeer q => [q] end) (map TPeer l) = l.
+Proof. induction l as [|x r IH]; cbn [map flat_map app]; [reflexivity|]. now f_equal. Qed.
+
+(* ApplyEnvVars with nothing set (save to the JSON form, load it again) does not change who is trusted *)
+Lemma env_pass_same_trust c h p : trust_crdt (env_pass c) h p = trust_crdt c h p.
+Proof.
+  apply eq_true_iff_eq. rewrite !trust_follows_history_l. unfold env_pass, json_of_cfg, cfg_of_json.
+  destruct c as [a me l]. cbn [trust_all self configured]. destruct a; cbn [load_trusted].
+  - cbn [trust_all self configured]. tauto.
+  - assert (E : load_trusted (map TPeer l) [] = (false, l)).
+    { destruct (load_trusted_spec (map TPeer l) []) as [_ I2]. rewrite I2.
+      - cbn [app]. f_equal. apply peers_of_map_tpeer.
+      - rewrite in_map_iff. intros [x [Hx _]]. discriminate. }
+    rewrite E. cbn [trust_all self configured]. tauto.
+Qed.
